@@ -62,6 +62,9 @@ type Check struct {
 	// further spaces on the fly (BFS levels) and runs them through run, which
 	// returns the state keys reported per case index.
 	Driver func(tier string, run func(sp *Space) map[int]string)
+	// External runs in the parent after the spaces: a pass executed by another program
+	// (e.g. a binary built with -race); it reports its cases through add.
+	External func(tier string, add func(space string, index int, text string, r Result))
 	// Post is run in the parent after all spaces (may add to the evidence).
 	Post func(tier string, ev map[string]interface{})
 }
